@@ -945,6 +945,76 @@ def strict_boundary_part(ctx):
     return n
 
 
+def reused_wrapper_part(ctx):
+    """One GraphNode object used twice (what as_node() is for): first in a strict graph as it is, then - derived with map_over /
+    with_outputs / with_inputs - in a second strict graph.  The verdict on the second graph must be the verdict on the same
+    graph built from a wrapper that was never used before, and must follow the typed pairs (a mapped output is list[T])."""
+    from hypergraph import Graph
+    from hypergraph.graph.validation import GraphConfigError
+    from hypergraph.nodes import FunctionNode
+    rng = ctx.rng
+    T = {"int": int, "str": str, "list[int]": list[int], "list[str]": list[str]}
+
+    def fn(name, params, out, ret):
+        src = f"def {name}({', '.join(params)}):\n    return 0\n"
+        ns = {}
+        exec(src, ns)  # noqa: S102 - generated from fixed names
+        f = ns[name]
+        f.__annotations__ = {**{p: T[t] for p, t in params.items()}, "return": T[ret]}
+        return FunctionNode(f, name=name, output_name=out)
+
+    def verdict(build):
+        try:
+            build()
+            return "accepted"
+        except GraphConfigError as e:
+            return "rejected:" + str(e).strip().split("\n")[0][:40]
+        except Exception as e:  # noqa: BLE001
+            return f"crash:{type(e).__name__}"
+    n = 0
+    for _ in range(ctx.n(30, 200)):
+        base = rng.choice(["int", "str"])
+        how = rng.choice(["map_over", "with_outputs", "with_inputs", "map_over+with_outputs"])
+        want = rng.choice(["int", "str", "list[int]", "list[str]"])
+
+        def wrapper():
+            return Graph([fn("a", {"doc": base}, "mid", base), fn("b", {"mid": base}, "res", base)], name="inner").as_node()
+
+        def derive(gn):
+            out = "res"
+            if "with_outputs" in how:
+                gn, out = gn.with_outputs(res="res2"), "res2"
+            if "map_over" in how:
+                gn = gn.map_over("doc")
+            if how == "with_inputs":
+                gn = gn.with_inputs(doc="doc2")
+            return gn, out
+
+        def second(gn):
+            d, out = derive(gn)
+            extra = [fn("src", {}, "doc2", want)] if how == "with_inputs" else []
+            use = [] if how == "with_inputs" else [fn("use", {out: want}, "z", "int")]
+            return Graph(extra + [d] + use, strict_types=True)
+        if how == "with_inputs":
+            expected_ok = want == base
+        else:
+            expected_ok = want == (f"list[{base}]" if "map_over" in how else base)
+        fresh = verdict(lambda: second(wrapper()))
+        used = wrapper()
+        first = verdict(lambda: Graph([used, fn("use1", {"res": base}, "z1", "int")], strict_types=True))
+        again = verdict(lambda: second(used))
+        n += 3
+        case = {"family": "reused_wrapper", "derivation": how, "inner_type": base, "outer_type": want}
+        if first != "accepted":
+            ctx.violation("oracle", f"the wrapper used as it is in a correct strict graph: {first}", case=case)
+        if (fresh == "accepted") != expected_ok:
+            ctx.violation("oracle", f"strict graph with a {how} wrapper ({base} vs outer {want}): {fresh.split(':')[0]}, typed pairs compatible = {expected_ok}", case=case)
+        if again.split(":")[0] != fresh.split(":")[0]:
+            ctx.violation("oracle", f"the verdict depends on earlier use of the GraphNode: a {how} wrapper ({base} vs outer {want}) is {fresh.split(':')[0]} when "
+                          f"fresh and {again} after the same object was placed in another strict graph", case=case)
+    return n
+
+
 def nested_interrupt_in_map_part(ctx):
     """A mapping GraphNode over a graph that holds an interrupt - directly, or one or two nested graphs further down - is a
     structural mistake (interrupts cannot be mapped): the constructor rejects it at every depth; the same graph without map_over,
@@ -1131,7 +1201,7 @@ def run(ctx):
         except ValueError as e:
             ctx.violation("harness", f"cannot describe the graph to the model: {e}", case={"graph": g})
     res = batch.run()
-    n_boundary = strict_boundary_part(ctx) + nested_interrupt_in_map_part(ctx)
+    n_boundary = strict_boundary_part(ctx) + nested_interrupt_in_map_part(ctx) + reused_wrapper_part(ctx)
     n_eval += n_boundary
     dist["strict_boundary_constructions"] = n_boundary
     # the types a nested graph offers across its boundary, and the edge verdict, against coq/theories/BoundaryTypes.v
